@@ -104,6 +104,8 @@ pub enum OwnStep {
     Clock(u8),
     /// set the sub-second part of the block time (forward only: a smaller value lands in the next second)
     Phase(u32),
+    /// the treasury is upgraded (stored version made older, then `migrate`): a migration must not touch the handover
+    Migrate,
 }
 
 pub fn own_steps() -> BoxedStrategy<Vec<OwnStep>> {
@@ -115,6 +117,7 @@ pub fn own_steps() -> BoxedStrategy<Vec<OwnStep>> {
         3 => prop_oneof![3 => who(), 1 => Just(5u8)].prop_map(OwnStep::Probe),
         7 => prop_oneof![3 => 0u8..3, 1 => 3u8..6].prop_map(OwnStep::Clock),
         4 => prop_oneof![Just(1u32), Just(999_999_999u32), 0u32..1_000_000_000].prop_map(OwnStep::Phase),
+        2 => Just(OwnStep::Migrate),
     ];
     proptest::collection::vec(step, 4..40).boxed()
 }
@@ -187,6 +190,24 @@ pub fn check_own_case(steps: &[OwnStep], agg: &mut Agg) -> Result<(), String> {
                     tb.time_s = target;
                 }
             }
+            OwnStep::Migrate => {
+                crate::props_c18::set_contract_info(&mut tb.storage, "treasury", "0.1.0");
+                let env = tb.env();
+                let api = tb.api.clone();
+                let q = NoQuerier;
+                let r = guarded(|| {
+                    let deps = DepsMut { storage: &mut tb.storage, api: &api, querier: QuerierWrapper::new(&q) };
+                    treasury::contract::migrate(deps, env, treasury::msg::MigrateMsg {})
+                });
+                match r {
+                    Ok(Ok(_)) => {}
+                    Ok(Err(e)) => return Err(format!("step {idx} treasury: migrate from 0.1.0 refused: {e}")),
+                    Err(p) => return Err(format!("step {idx} treasury: migrate panicked: {} at {}", p.message, p.location)),
+                }
+                if mt.nominee.is_some() {
+                    *agg.flags.entry("migrated_with_pending_nomination".into()).or_insert(0) += 1;
+                }
+            }
             OwnStep::Phase(ns) => {
                 let ns = *ns as u64 % 1_000_000_000;
                 let sec = if ns > tb.sub_ns { now } else { now + 1 };
@@ -222,6 +243,7 @@ pub fn check_own_case(steps: &[OwnStep], agg: &mut Agg) -> Result<(), String> {
                 let s_from = principal(&ms, &people, *i);
                 let exp_s = s_from == ms.admin;
                 let out = e.ch.execute(&s_from, &[], SMsg::RevokeOwnershipTransfer {});
+                let exp_s = if exp_s && ms.nominee.is_none() { out.ok } else { exp_s };
                 if out.ok != exp_s || out.panic.is_some() {
                     return Err(format!("step {idx} staking: revoke by {s_from} (admin {}) -> ok={} err={:?}", ms.admin, out.ok, out.err));
                 }
@@ -233,6 +255,8 @@ pub fn check_own_case(steps: &[OwnStep], agg: &mut Agg) -> Result<(), String> {
                 let t_from = principal(&mt, &people, *i);
                 let exp_t = t_from == mt.admin;
                 let r = tb.exec(&t_from, TMsg::RevokeOwnershipTransfer {});
+                // revoking when nothing is pending may succeed (nothing to do) or be refused
+                let exp_t = if exp_t && mt.nominee.is_none() { r.is_ok() } else { exp_t };
                 if r.is_ok() != exp_t || matches!(r, Err(Err(_))) {
                     return Err(format!("step {idx} treasury: revoke by {t_from} (admin {}) -> {:?}", mt.admin, r.map(|_| ())));
                 }
@@ -605,7 +629,8 @@ pub fn check_tcase(c: &TCase, agg: &mut Agg) -> Result<(), String> {
                 match res {
                     Err(Err(p)) => return Err(format!("{what}: {p}")),
                     Err(Ok(e)) => {
-                        if want_ok {
+                        // (a zero amount or a zero limit may be refused: the Osmosis module would refuse them anyway)
+                        if want_ok && *amount > 0 && *limit > 0 {
                             return Err(format!("{what}: rejected ({e}) although trader, allow-listed route and matching end-point denom"));
                         }
                         if derived && !listed && sender == trader {
@@ -617,8 +642,11 @@ pub fn check_tcase(c: &TCase, agg: &mut Agg) -> Result<(), String> {
                             return Err(format!("{what}: accepted (trader ok: {}, allow-listed: {listed}, end-point denom {end_denom})", sender == trader));
                         }
                         nontrivial = true;
-                        if tb.storage != before {
-                            return Err(format!("{what}: a swap changed contract storage"));
+                        // the configuration and the handover state are what C13/C12 speak about; additional bookkeeping
+                        // (a namespace the pinned contract does not have) is not forbidden
+                        let touched: Vec<String> = before.diff_keys(&tb.storage).iter().map(|k| crate::store::key_namespace(k)).filter(|n| crate::store::known_namespace(n)).collect();
+                        if !touched.is_empty() {
+                            return Err(format!("{what}: a swap changed contract storage: {:?}", touched));
                         }
                         if resp.messages.len() != 1 {
                             return Err(format!("{what}: {} messages emitted", resp.messages.len()));
@@ -666,7 +694,10 @@ pub fn check_tcase(c: &TCase, agg: &mut Agg) -> Result<(), String> {
                 match res {
                     Err(Err(p)) => return Err(format!("{what}: {p}")),
                     Err(Ok(e)) => {
-                        if want_ok {
+                        // must succeed only for a non-zero amount to a plainly spelled address (a bank send of zero, or to
+                        // an address with an unusual payload / checksum / case, may be refused)
+                        let plain = dec.as_ref().map(|d| !d.upper && d.classic && matches!(d.payload().map(|p| p.len()), Some(20) | Some(32))).unwrap_or(false);
+                        if want_ok && *amount > 0 && plain {
                             return Err(format!("{what}: rejected: {e}"));
                         }
                     }
